@@ -616,6 +616,9 @@ def run_property(mod, tier, seed, replay=None):
             if k.get("always_print", True):
                 lines.append(f"KNOWN-FINDING: property={ctx.pid} {k['id']}: {k['what_fails']} (not re-observed in this run)")
     violations = 0
+    # only a witness of an UNLISTED failure counts as "a failing input was found":
+    # the witness of a known finding says nothing about why an obligation broke
+    have_witness = any(f.witness is not None for f in new)
     if new:
         # failures with a witness first; obligations without witness get the suffix
         new.sort(key=lambda f: f.witness is None)
